@@ -46,6 +46,35 @@ def N4():
     ]
 
 
+def N5():
+    """P and P2: replicates built from one and the same float64 array object"""
+    a = [[100, 50, 0], [100, 25, 100]]
+    return [
+        dict(plate("P", 2, 3, 0, 400, a), share="tmpl"),
+        dict(plate("P2", 2, 3, 0, 400, a), share="tmpl"),
+        plate("Q", 3, 2, 0, 300, 0),
+        trough("T", 3, 2, 20, 1000, [500, 300]),
+    ]
+
+
+def ev_N5():
+    core = [
+        T("P", ["A01"], "Q", ["A01"], [30]),
+        T("P2", ["A01", "B01"], "Q", ["A01", "B01"], [30, 7.5]),
+        T("T", ["A02"], "P", ["A01"], [70]),
+        T("P", ["B03"], "P2", ["A03"], [30]),
+        T("Q", ["A01"], "P2", ["A01"], [7.5]),
+    ]
+    full = [
+        T("P2", ["B02", "A02"], "Q", ["A01", "A01"], [7.5, 30]),
+        T("P2", ["A01"], "P", ["A01"], [30]),
+        R("T", 0, "P2", ["A01", "B02"], 30),
+        Rm("P2", ["A01"], 30),
+        D("P", ["A01"], 30, compositions=[{"x": 1.0}]),
+    ]
+    return core, full
+
+
 def ev_N12():
     core = [
         T("P", ["A01"], "Q", ["A01"], [30]),
@@ -131,7 +160,7 @@ def ev_N3():
     return core, full
 
 
-SETS = {"N1": (N1, ev_N12), "N2": (N2, ev_N12), "N3": (N3, ev_N3), "N4": (N4, ev_N12)}
+SETS = {"N1": (N1, ev_N12), "N2": (N2, ev_N12), "N3": (N3, ev_N3), "N4": (N4, ev_N12), "N5": (N5, ev_N5)}
 
 
 def contents_by_name(spec, W):
@@ -176,7 +205,10 @@ class Harness(cm.BaseA):
         out = []
         for sname, (mk, _) in SETS.items():
             for cls in ("EvoWorklist", "FluentWorklist"):
-                out.append({"set": sname, "labware": mk(), "worklists": {"w": {"cls": cls, "max_volume": 50, "auto_split": True}}})
+                cfg = {"set": sname, "labware": mk(), "worklists": {"w": {"cls": cls, "max_volume": 50, "auto_split": True}}}
+                if sname == "N5":
+                    cfg["fresh"] = True  # shared memory does not survive pickling: histories are re-executed
+                out.append(cfg)
         return out
 
     def init(self, config):
@@ -191,7 +223,7 @@ class Harness(cm.BaseA):
 
     def full_events(self, W, config):
         c, f = SETS[config["set"]][1]()
-        return c + f + [["naming"]]
+        return c + f + [["naming"], ["combine"]]
 
     def canon(self, W, config):
         parts = []
@@ -205,6 +237,8 @@ class Harness(cm.BaseA):
     def step(self, W, ev, config):
         if ev[0] == "naming":
             return {"outcome": "naming", "violations": naming_rule(), "expand": False}
+        if ev[0] == "combine":
+            return {"outcome": "combine", "violations": combine_rule(), "expand": False}
         wl = W["wl"]["w"]
         before = {n: ({k: a.copy() for k, a in lw.composition.items()}, lw.volumes) for n, lw in W["lw"].items()}
         out, exc = exec_event(W, ev)
@@ -319,6 +353,38 @@ def rt_labware_trough(vr, C):
     from ..world import rt
 
     return rt.Labware("L", 1, C, min_volume=0, max_volume=100, initial_volumes=[[10.0 * (c + 1) for c in range(C)]], virtual_rows=vr)
+
+
+def combine_rule():
+    """the public mixing function itself: exact volumetric mixing, and a pure function of its arguments (the
+    dictionaries a caller hands in are the caller's; a user predicts several mixtures from the same stock)"""
+    from fractions import Fraction as F
+
+    from robotools.liquidhandling.composition import combine_composition
+
+    V = []
+    comps = [{"a": 1.0}, {"a": 0.5, "b": 0.5}, {"b": 0.25, "c": 0.75}, {}]
+    for va in (0.0, 30.0, 100.0):
+        for vb in (7.5, 50.0):
+            for ca in comps:
+                for cb in comps:
+                    a, b = dict(ca), dict(cb)
+                    try:
+                        r1 = combine_composition(va, a, vb, b)
+                        r2 = combine_composition(va, a, vb, b)  # the same dictionaries once more
+                    except Exception as e:
+                        V.append(("C05/mixture", f"combine_composition({va}, {ca}, {vb}, {cb}) raised {type(e).__name__}: {e}"))
+                        continue
+                    want = {}
+                    for k in set(ca) | set(cb):
+                        want[k] = (F(ca.get(k, 0)) * F(va) + F(cb.get(k, 0)) * F(vb)) / (F(va) + F(vb))
+                    for nm, r in (("", r1), (" (second call with the same dictionaries)", r2)):
+                        if r is None or set(r) != set(want) or any(abs(F(float(r[k])) - want[k]) > F(1, 10**12) for k in want):
+                            V.append(("C05/mixture", f"combine_composition({va}, {ca}, {vb}, {cb}){nm} -> {r}, exact mixing gives { {k: float(v) for k, v in want.items()} }"))
+                            break
+                    if a != ca or b != cb:
+                        V.append(("C05/mixture", f"combine_composition({va}, {ca}, {vb}, {cb}) changed the dictionaries it was given: {a}, {b}"))
+    return V[:6]
 
 
 def naming_rule():
